@@ -44,6 +44,11 @@ RECIPES = [
      "t0 = 1 / (w * h * _k)\n            t1 = (-beta * beta + _w2) / _wo2", "commuted products / sums"),
     ("C01", "neutral", [], "pyyeti/ode/_utilities.py", "            hbeta = h * beta\n            F[pvcrit] = ex * (1 + hbeta)",
      "            hbeta = beta * h\n            one_hb = 1 + hbeta\n            F[pvcrit] = ex * one_hb", "temporary introduced"),
+    ("C01", "break", ["C01-R6"], "pyyeti/ode/_base_ode_class.py", "                    B = b @ v[kdof]", "                    B = self.bo @ v[kdof]", "equilibrium acceleration: diagonal damping dropped"),
+    ("C01", "break", ["C01-R6"], "pyyeti/ode/_base_ode_class.py", "                    a[kdof] = la.lu_solve(self.invm, F - B - K, check_finite=False)",
+     "                    a[kdof] = la.lu_solve(self.invm, F - B + K, check_finite=False)", "equilibrium acceleration: stiffness sign (coupled arm)"),
+    ("C01", "break", ["C01-R6"], "pyyeti/ode/_base_ode_class.py", "                    bo[i, i] = 0.0  # off diagonal damping", "                    pass", "bo keeps its diagonal"),
+    ("C01", "neutral", [], "pyyeti/ode/_base_ode_class.py", "                    bo[i, i] = 0.0  # off diagonal damping", "                    np.fill_diagonal(bo, 0.0)", "other zeroing idiom"),
     # ---- C02
     ("C02", "break", ["C02-R1"], "pyyeti/ode/solveunc.py", "                    - self.m[_el][:, None] @ fw2\n", "                    + self.m[_el][:, None] @ fw2\n", "mass term sign"),
     ("C02", "break", ["C02-R2"], "pyyeti/ode/solveunc.py", "            a[el] = d[el] * -(freqw2)", "            a[el] = d[el] * (freqw2)", "a = -W^2 d sign"),
